@@ -3,7 +3,7 @@ from __future__ import annotations
 
 import ast
 
-from ..core import INCONCLUSIVE, OK, VIOLATION, Ctx, is_self_attr, local_defs
+from ..core import INCONCLUSIVE, OK, VIOLATION, Ctx, canon, is_self_attr, local_defs
 from ..model import AnalysisError, body_walk, norm
 from .common import is_history_append, node_has_effect
 
@@ -169,7 +169,7 @@ def analyse_engine(ctx: Ctx, ci, f, cfg, in_loop):
                     obs.append(ctx.ob("R11.1", f, assigns[0].stmt, status=VIOLATION, detail=f"{ci.name}: `{p.id}` is reassigned in the loop but not from the step's result ({sorted(results)}): `{assigns[0].label}`", construct=label))
                     continue
                 # every path from the consumer back to the loop head passes a good assignment
-                leak = None if n in good else cfg.find_path(n, head, avoid=lambda x: x in good)
+                leak = None if n in good else cfg.find_path(n, n, avoid=lambda x: x in good)
                 # paths that leave the loop (return) never come back: only back-edge paths matter, find_path to head covers them
                 if leak is not None:
                     obs.append(ctx.ob("R11.1", f, call, status=VIOLATION, detail=f"{ci.name}: on some path around the loop `{p.id}` is not updated from the previous generation", witness=[f"L{x.lineno}: {x.label[:70]}" for x in leak], construct=label))
@@ -211,7 +211,7 @@ def analyse_engine(ctx: Ctx, ci, f, cfg, in_loop):
 
                 good = [b for b in body if feeds(b)]
                 other_mut = [b for b in body if b not in good and any((isinstance(x, ast.Call) and isinstance(x.func, ast.Attribute) and norm(x.func.value) == L_ and x.func.attr in ("append", "extend", "insert", "pop", "remove", "clear", "reverse", "sort", "__setitem__")) for x in ast.walk(b.ast)) or L_ in _targets(b.ast) or any(isinstance(x, ast.Subscript) and isinstance(x.ctx, (ast.Store, ast.Del)) and norm(x.value) == L_ for x in ast.walk(b.ast))]
-                leak = None if (n in good or not good) else cfg.find_path(n, head, avoid=lambda x: x in good)
+                leak = None if (n in good or not good) else cfg.find_path(n, n, avoid=lambda x: x in good)
                 if not good:
                     obs.append(ctx.ob("R11.1", f, call, status=INCONCLUSIVE, detail=f"{ci.name}: cannot see the step's result being appended to `{L_}`", construct=label))
                 elif other_mut:
@@ -235,10 +235,15 @@ def analyse_engine(ctx: Ctx, ci, f, cfg, in_loop):
                     if all(isinstance(b.ast, (ast.Assign, ast.AnnAssign)) and b.ast.value is not None and not any(isinstance(x, ast.Call) for x in ast.walk(b.ast.value)) and not (_free_locals(b.ast.value, selfn) & loop_assigned) for b in assigns):
                         continue  # recomputed in every iteration from loop-invariant state: a constant of the metaepoch
                     good = [b for b in assigns if good_assign(b, nm)]
+                    if not good and all(isinstance(b.ast, ast.AugAssign) and isinstance(b.ast.value, ast.Constant) and isinstance(b.ast.value.value, int) for b in assigns):
+                        # a loop counter used as an index into the list of generations: which generation `...[i - 1]` is, is a
+                        # question about values this rule does not answer
+                        verdicts.append((INCONCLUSIVE, f"the parents are picked by the loop index `{nm}` (`{norm(p)[:70]}`): not followed"))
+                        continue
                     if not good:
                         verdicts.append((VIOLATION, f"`{nm}` is reassigned in the loop but not from the step's result ({sorted(results)}): `{assigns[0].label}`"))
                         continue
-                    leak = None if n in good else cfg.find_path(n, head, avoid=lambda x: x in good)
+                    leak = None if n in good else cfg.find_path(n, n, avoid=lambda x: x in good)
                     if leak is not None:
                         verdicts.append((VIOLATION, f"on some path around the loop `{nm}` is not updated from the previous generation"))
                     elif [b for b in assigns if b not in good]:
@@ -246,8 +251,11 @@ def analyse_engine(ctx: Ctx, ci, f, cfg, in_loop):
                     else:
                         verdicts.append((OK, f"`{nm}` is loop-carried from the step result on every back-edge path"))
                 bad_v = [v for v in verdicts if v[0] == VIOLATION]
+                und_v = [v for v in verdicts if v[0] == INCONCLUSIVE]
                 if bad_v:
                     obs.append(ctx.ob("R11.1", f, call, status=VIOLATION, detail=f"{ci.name}: {bad_v[0][1]}", construct=label))
+                elif und_v:
+                    obs.append(ctx.ob("R11.1", f, call, status=INCONCLUSIVE, detail=f"{ci.name}: {und_v[0][1]}", construct=label))
                 else:
                     obs.append(ctx.ob("R11.1", f, call, detail=f"{ci.name}: parent expression `{norm(p)[:50]}`: {verdicts[0][1]}", construct=label))
                     carried_names = [nm for nm in sorted(_free_locals(p, selfn)) if any(nm in _targets(b.ast) for b in body)]
@@ -372,7 +380,33 @@ def r11_4(ctx: Ctx):
     if len(rets) == 1 and isinstance(rets[0].value, ast.ListComp) and len(rets[0].value.generators) == 2:
         g1, g2 = rets[0].value.generators
         okh = norm(g1.iter) == f"{hs}._history" and isinstance(g1.target, ast.Name) and norm(g2.iter) == g1.target.id and isinstance(g2.target, ast.Name) and norm(rets[0].value.elt) == g2.target.id and not g1.ifs and not g2.ifs
-    obs.append(ctx.ob("R11.4", h, rets[0] if rets else h.node, status=OK if okh else VIOLATION, detail="history = all generations, metaepoch by metaepoch, in order" if okh else f"history is `{norm(rets[0].value) if rets else '?'}`, not the in-order flattening of the per-metaepoch generation lists", construct="history"))
+    st_h = OK if okh else INCONCLUSIVE
+    if not okh and len(rets) == 1 and rets[0].value is not None:
+        v_ = rets[0].value
+        # through a generator helper of the class: `list(self._iter_generations())` with
+        # `for m in self._history: for g in m: yield g` (or `yield from m`)
+        inner = v_.args[0] if isinstance(v_, ast.Call) and norm(v_.func) in ("list", "tuple") and len(v_.args) == 1 else v_
+        if isinstance(inner, ast.Call) and isinstance(inner.func, ast.Attribute) and is_self_attr(inner.func, None, hs) and not inner.args and h.cls is not None and inner.func.attr in h.cls.methods:
+            gm = h.cls.methods[inner.func.attr]
+            gs = gm.self_name()
+            body_ = [x for x in gm.node.body if not (isinstance(x, ast.Expr) and isinstance(x.value, ast.Constant))]
+            if len(body_) == 1 and isinstance(body_[0], ast.For) and norm(body_[0].iter) == f"{gs}._history" and isinstance(body_[0].target, ast.Name) and len(body_[0].body) == 1:
+                b0 = body_[0].body[0]
+                m_ = body_[0].target.id
+                if isinstance(b0, ast.Expr) and isinstance(b0.value, ast.YieldFrom) and norm(b0.value.value) == m_:
+                    st_h = OK
+                elif isinstance(b0, ast.For) and norm(b0.iter) == m_ and isinstance(b0.target, ast.Name) and len(b0.body) == 1 and isinstance(b0.body[0], ast.Expr) and isinstance(b0.body[0].value, ast.Yield) and norm(b0.body[0].value.value) == b0.target.id:
+                    st_h = OK
+        # positive evidence of a wrong flattening: a reversed / sorted / sliced / filtered source
+        t_ = canon(v_)
+        if st_h != OK and (isinstance(v_, ast.ListComp) and (any(g_.ifs for g_ in v_.generators) or any(isinstance(g_.iter, ast.Subscript) or (isinstance(g_.iter, ast.Call) and norm(g_.iter.func) in ("reversed", "sorted")) for g_ in v_.generators)) and "_history" in t_):
+            st_h = VIOLATION
+        if st_h != OK and isinstance(v_, ast.Subscript) and "_history" in t_ and not isinstance(v_.slice, ast.Slice):
+            st_h = VIOLATION  # one metaepoch's generations only
+        if st_h != OK and is_self_attr(v_, None, hs) and v_.attr not in ("_history",):
+            st_h = VIOLATION  # a stored (cached) flattening instead of one recomputed from _history on every read
+    okh = st_h == OK
+    obs.append(ctx.ob("R11.4", h, rets[0] if rets else h.node, status=st_h, detail="history = all generations, metaepoch by metaepoch, in order" if okh else f"history is `{norm(rets[0].value) if rets else '?'}`, not the in-order flattening of the per-metaepoch generation lists", construct="history"))
     for ci in ctx.prog.subclasses(base):
         for nm in ("current_population", "history"):
             if nm in ci.methods:
